@@ -514,6 +514,18 @@ func (p patch41) Exit(n *ast.Node) {
 	}
 }
 
+// expand41 is the first of TWO visitors: it replaces the literal 41 by the sub-tree `Zz41 + 0`, which only the
+// second visitor (patch41{repair}) turns into something that type-checks. Each Patch option is a walk of its own
+// over the tree the previous one left.
+type expand41 struct{}
+
+func (expand41) Enter(*ast.Node) {}
+func (expand41) Exit(n *ast.Node) {
+	if i, ok := (*n).(*ast.IntegerNode); ok && i.Value == 41 {
+		ast.Patch(n, &ast.BinaryNode{Operator: "+", Left: &ast.IdentifierNode{Value: "Zz41"}, Right: &ast.IntegerNode{Value: 0}})
+	}
+}
+
 // patch-e2e: Compile(src with 41, Patch(41->42)) must behave like Compile(src with 42).
 func judgeC10Patch(c *core.Case, cfg *core.Config) core.Verdict {
 	x, spec := c.X, c.Env
@@ -531,6 +543,12 @@ func judgeC10Patch(c *core.Case, cfg *core.Config) core.Verdict {
 			return
 		}
 		if n.K == "lit" && n.Ty.K == core.KInt && n.I == 41 && n.S == "" {
+			if c.Bool("two") {
+				*n = *core.Bin("+", core.LitInt(42), core.LitInt(0), core.TInt)
+				n41++
+				where[ctx] = true
+				return
+			}
 			if c.Bool("retype") && !c.Bool("repair") {
 				n.Ty, n.F, n.I = core.TF64, 41.5, 0
 			} else {
@@ -567,7 +585,7 @@ func judgeC10Patch(c *core.Case, cfg *core.Config) core.Verdict {
 	}
 	src42 := (&core.Printer{Parens: core.ParenFull}).Print(x42)
 	x41 := x
-	if c.Bool("repair") {
+	if c.Bool("repair") && !c.Bool("two") {
 		x41 = x.Clone()
 		x41.Walk(func(n *core.X) {
 			if n.K == "lit" && n.Ty.K == core.KInt && n.I == 41 && n.S == "" {
@@ -584,7 +602,11 @@ func judgeC10Patch(c *core.Case, cfg *core.Config) core.Verdict {
 		// check succeeded
 		common = append(common, expr.Operator("+", "JoinSp"), expr.Operator("-", "SubF"))
 	}
-	pa, erra := compile(src41, append(append([]expr.Option{}, common...), expr.Patch(patch41{retype: c.Bool("retype") && !c.Bool("repair"), repair: c.Bool("repair")}))...)
+	visitors := []expr.Option{expr.Patch(patch41{retype: c.Bool("retype") && !c.Bool("repair"), repair: c.Bool("repair")})}
+	if c.Bool("two") {
+		visitors = []expr.Option{expr.Patch(expand41{}), expr.Patch(patch41{repair: true})}
+	}
+	pa, erra := compile(src41, append(append([]expr.Option{}, common...), visitors...)...)
 	pb, errb := compile(src42, common...)
 	if (erra == nil) != (errb == nil) {
 		v.Violation = fmt.Sprintf("%q with Patch(41->42) compiles: %v; %q compiles: %v", src41, errStr(erra), src42, errStr(errb))
@@ -812,6 +834,10 @@ func TestC10(t *testing.T) {
 		// a visitor that changes an operand's type is outside what the differential may assume, so overloads are
 		// only combined with type-preserving and repairing patches
 		c.P["ops"] = rapid.Bool().Draw(rt, "ops") && !(c.Bool("retype") && !c.Bool("repair"))
+		c.P["two"] = rapid.IntRange(0, 3).Draw(rt, "two") == 0
+		if c.Bool("two") {
+			c.P["retype"], c.P["repair"] = false, false
+		}
 		return c
 	})
 }
